@@ -702,11 +702,11 @@ class Emitter:
             return self.result(None, pure)
         s, rest = stmts[0], stmts[1:]
         k = s[0]
-        if not pure and k in ("let", "expr", "return") and len(s) > 1 and s[1] is not None:
-            which = 2 if k == "let" else 1
+        if not pure and k in ("let", "expr", "return", "assign") and len(s) > 1 and s[1] is not None:
+            which = 2 if k == "let" else (3 if k == "assign" else 1)
             if (k != "let" or not any(match(pt, s[2], {}) for pt, _, _ in self.lets)) and \
                     not self._leaf_with_exit(s[which]):
-                e2, pre = self._hoist(s[which])
+                e2, pre = self._hoist(s[which], keep_root=(k != "assign"))
                 if pre:
                     s2 = list(s)
                     s2[which] = e2
@@ -848,7 +848,7 @@ class Emitter:
                 return not any(self._has_exit(q) for q in b.values())
         return False
 
-    def _hoist(self, e):
+    def _hoist(self, e, keep_root=True):
         """`f(a?, g(b?)?)` -> `let __t0 = a?; let __t1 = b?; let __t2 = g(__t1)?; f(__t0, __t2)`: every nested `?` that is
         evaluated unconditionally becomes a `let … = …?;` statement in evaluation order (a `?` at the root stays)"""
         pre = []
@@ -878,7 +878,7 @@ class Emitter:
                 pre.append(("let", ("pbind", name), ("try", inner), None))
                 return ("path", name)
             return tuple(walk(y, False) if isinstance(y, (tuple, list)) else y for y in x)
-        return walk(e, True), pre
+        return walk(e, keep_root), pre
 
     def _has_exit(self, e):
         """does the block-like expression contain `?` or `return` (so that it cannot be a pure value)?"""
